@@ -81,7 +81,12 @@ def probe(ctx, cal, m, cfg, ns, stride, rng, sb, light=False):
     for t in days:
         tod = t + datetime.timedelta(hours=rng.randrange(24), minutes=rng.randrange(60))
         sb.reset()
-        for x in (t, tod):
+        xs_ = (t, tod)
+        if rng.random() < 0.15:
+            import pandas as pd
+            # the day as a pandas Timestamp read from a nanosecond clock, or as a date: still that day
+            xs_ = (t, tod, pd.Timestamp(tod) + pd.Timedelta(rng.choice([1, 250, 999]), 'ns'), t.date())
+        for x in xs_:
             mon['is_bday'] += 1
             b, h = cal.is_bday(x), cal.is_holiday(x)
             if b != m.is_b(t) or h == b:
